@@ -383,7 +383,7 @@ def cat_sig(reason):
     return reason.replace(":", "/")
 
 
-ALL_FAMS = ["hdr", "calls", "calls3", "callsT", "calls2", "many", "meta", "extra", "extran", "list", "map", "nest", "mapi", "mapb", "mapm", "str", "int", "acc", "plain"]
+ALL_FAMS = ["hdr", "calls", "calls3", "callsT", "callsTy", "calls2", "many", "meta", "extra", "extran", "list", "map", "nest", "mapi", "mapb", "mapm", "str", "int", "acc", "plain"]
 
 
 def c14(tier, repo=None):
@@ -392,10 +392,10 @@ def c14(tier, repo=None):
     log("[C14] tier=%s seed=%d repo=%s" % (tier, vlib.SEED, repo))
     rnd = random.Random(vlib.SEED * 15485863 + 14)
     if tier == "quick":
-        plan = [("ConcatGen_q", ALL_FAMS, 3, ["hdr", "calls3", "many", "meta", "extra", "extran", "map", "nest", "mapi", "mapb", "mapm", "str", "int", "acc", "plain"], 600)]
+        plan = [("ConcatGen_q", ALL_FAMS, 3, ["hdr", "calls3", "callsTy", "many", "meta", "extra", "extran", "map", "nest", "mapi", "mapb", "mapm", "str", "int", "acc", "plain"], 600)]
         limit = None
     else:
-        plan = [("ConcatGen_t", ALL_FAMS, 4, ["hdr", "calls3", "callsT", "many", "meta", "extra", "extran", "map", "nest", "mapi", "mapb", "mapm", "str", "int", "acc", "plain"], 1700)]
+        plan = [("ConcatGen_t", ALL_FAMS, 4, ["hdr", "calls3", "callsT", "callsTy", "many", "meta", "extra", "extran", "map", "nest", "mapi", "mapb", "mapm", "str", "int", "acc", "plain"], 1700)]
         limit = 100000
     cases, gens, states, trans = [], [], 0, 0
     for name, fams, maxlen, longf, to in plan:
